@@ -154,3 +154,86 @@ pub fn bfs<S: Clone + Send + Sync>(
     }
     BfsOut { states, depth_of, transitions, complete, max_depth: depth.saturating_sub(1), failure: None, parents }
 }
+
+/// Repetition probes: counters that wrap (an "O(1) reset" by generation number, a lazily
+/// invalidated cache tagged with a u8 / u16 counter) are invisible to a breadth-first search whose
+/// state space they multiply. From every explored state, every operation `a` is therefore applied
+/// k times in a row, and at each k in `ks` every operation `b` is tried once (the oracle inside
+/// `step` judges every application). Returns (transitions, first failure as an operation path).
+pub fn repetition_probes<S: Clone + Send + Sync>(
+    ctx: &Ctx,
+    out: &BfsOut<S>,
+    nops: usize,
+    step: impl Fn(&S, usize) -> Result<Option<S>, Fail> + Sync,
+    ks: &[usize],
+    max_states: usize,
+) -> (u64, Option<(Vec<usize>, Fail)>) {
+    let kmax = ks.iter().copied().max().unwrap_or(0);
+    let n = out.states.len().min(max_states);
+    let threads = ctx.threads.max(1);
+    let chunk = (n + threads - 1) / threads.max(1);
+    let idx: Vec<usize> = (0..n).collect();
+    let results: Vec<(u64, Option<(usize, Vec<usize>, Fail)>)> = std::thread::scope(|sc| {
+        let mut hs = Vec::new();
+        for part in idx.chunks(chunk.max(1)) {
+            let step = &step;
+            let states = &out.states;
+            hs.push(sc.spawn(move || {
+                let mut tr = 0u64;
+                for &si in part {
+                    for a in 0..nops {
+                        let mut cur = states[si].clone();
+                        for k in 1..=kmax {
+                            tr += 1;
+                            match guarded(|| step(&cur, a)) {
+                                Ok(Ok(Some(n))) => cur = n,
+                                Ok(Ok(None)) => break,
+                                Ok(Err(f)) => return (tr, Some((si, vec![a; k], f))),
+                                Err(p) => return (tr, Some((si, vec![a; k], Fail { sig: "panic".into(), detail: format!("unexpected panic: {}", p) }))),
+                            }
+                            if ks.contains(&k) {
+                                for b in 0..nops {
+                                    tr += 1;
+                                    match guarded(|| step(&cur, b)) {
+                                        Ok(Ok(_)) => {}
+                                        Ok(Err(f)) => {
+                                            let mut p = vec![a; k];
+                                            p.push(b);
+                                            return (tr, Some((si, p, f)));
+                                        }
+                                        Err(pn) => {
+                                            let mut p = vec![a; k];
+                                            p.push(b);
+                                            return (tr, Some((si, p, Fail { sig: "panic".into(), detail: format!("unexpected panic: {}", pn) })));
+                                        }
+                                    }
+                                }
+                            }
+                        }
+                    }
+                }
+                (tr, None)
+            }));
+        }
+        hs.into_iter().map(|h| h.join().expect("probe worker died")).collect()
+    });
+    let mut tr = 0;
+    let mut best: Option<(usize, Vec<usize>, Fail)> = None;
+    for (t, f) in results {
+        tr += t;
+        if let Some(f) = f {
+            let better = match &best {
+                None => true,
+                Some(b) => (f.1.len() + out.depth_of[f.0] as usize, f.0) < (b.1.len() + out.depth_of[b.0] as usize, b.0),
+            };
+            if better {
+                best = Some(f);
+            }
+        }
+    }
+    (tr, best.map(|(si, tail, f)| {
+        let mut p = out.path_to(si);
+        p.extend(tail);
+        (p, f)
+    }))
+}
